@@ -139,7 +139,7 @@ def run(tier, seed, scale=1.0):
     per = int((30000 if quick else 2400000) * scale)
     sp = private_spec("legacy", "total", seed, opts={"corpus": CORPUS})
     res.merge(vdriver.explore(sp, per, chunk=max(50, min(400, per // 128)), chunk_timeout=900,
-                              stop_after_violations=100000))
+                              stop_after_violations=2000))
 
     # ---- optional libFuzzer stage (thorough only)
     if not quick and scale >= 0.05:
